@@ -14,6 +14,7 @@ D = "quimb/tensor/decomp.py"
 KEEP, RENORM, TRIMN, TRIMG, ABS, ABSN = ("::_compute_number_svals_to_keep_numba", "::_compute_svals_renorm_factor_numba",
                                          "::_trim_and_renorm_svd_result_numba", "::_trim_and_renorm_svd_result",
                                          "::_do_absorb", "::_do_absorb_numba")
+FDX = "::fdx"
 
 _FIX_OLD = "            norm = (tot / csp[n_chi - 1]) ** (1 / pow)\n"
 _FIX_NEW = ("            crp = xp.cumsum(sabs**renorm, axis=-1)\n"
@@ -100,6 +101,18 @@ MUTANTS = [
     (D, ABSN, "        sq = np.sqrt(s)\n        return None, None, ldmul_numba(sq, VH)", "        sq = np.sqrt(s)\n        return None, None, ldmul_numba(s, VH)", "expect-fail"),
     (D, ABSN, "    if absorb == get_s:  # 'svals'\n        return None, s, None\n    return None, None, None", "    if absorb == get_s:  # 'svals'\n        return None, None, s\n    return None, None, None", "expect-fail"),
     (D, ABSN, "        # get_U_s_VH - return as-is\n        return U, s, VH", "        # get_U_s_VH - return as-is\n        return U, s, None", "expect-fail"),
+    # ---- fdx provider (option parsers and their tables): the mutated file is imported as a module of its own and the
+    # provider evaluated on it; caught = a provider obligation fails that the unchanged tree discharges
+    (D, FDX, "    left_isom = absorb in (get_U_s_VH, get_U_sVH, get_U)", "    left_isom = absorb in (get_U_s_VH, get_U_sVH, get_U, get_Usq_sqVH)", "expect-fail"),
+    (D, FDX, "    right_isom = absorb in (get_U_s_VH, get_Us_VH, get_VH)", "    right_isom = absorb in (get_U_s_VH, get_Us_VH, get_VH, get_sVH)", "expect-fail"),
+    (D, FDX, "        absorb = _DEFAULT_ABSORB[method]\n", "        absorb = \"both\"\n", "expect-fail"),
+    (D, FDX, "                    opts[\"renorm\"] = 0 if renorm is None else renorm", "                    opts[\"renorm\"] = renorm", "expect-fail"),
+    (D, FDX, "    if \"max_bond\" in signature.parameters:\n        opts[\"max_bond\"] = max_bond", "    if True:\n        opts[\"max_bond\"] = max_bond", "expect-fail"),
+    (D, FDX, "    if method.startswith(\"lq\"):", "    if method == \"lq\":", "expect-fail"),
+    (D, FDX, "    get_Us: get_sVH,\n", "    get_Us: get_Us,\n", "expect-fail"),
+    (D, FDX, "_RETURNS_LEFT_ABSORBS = {\n    get_U_s_VH,\n    get_Usq,", "_RETURNS_LEFT_ABSORBS = {\n    get_U_s_VH,\n    get_VH,", "expect-fail"),
+    (D, FDX, "    truncation = (max_bond > 0) or (cutoff > 0.0)", "    truncation = (max_bond > 0) or (cutoff >= 0.0)", "benign"),  # 'auto' then always resolves to svd: still total
+    (D, FDX, "                if renorm is True:\n", "                if renorm is True or renorm == 1:\n", "benign"),  # (a 'fix' of 6b that changes the meaning of renorm=1: no *new* failure)
 ]
 
 
@@ -109,8 +122,48 @@ def _clean_generic_case(name):
             or (("sum1" in name) and name.endswith("renorm=1")))
 
 
+_FDX_BASE = {}
+
+
+def _fdx_failed(D, methods):
+    import contracts.c05_decomp as C
+    return {o.id for o in C.provider_on(D, isometry_methods=methods) if o.status != "discharged"}
+
+
+def run_fdx_mutant(tmp, relpath, old, new):
+    """import the mutated decomp.py as a module of its own (its tables and caches are its own) and evaluate the provider"""
+    import importlib.util
+    import warnings
+    src = open(os.path.join("/repo", relpath)).read()
+    if src.count(old) < 1:
+        return "stale", "old text not found in the current source"
+    dst = os.path.join(tmp, relpath)
+    os.makedirs(os.path.dirname(dst), exist_ok=True)
+    open(dst, "w").write(src.replace(old, new, 1))
+    methods = ("svd", "qr", "auto", "lq")  # isometry runs restricted to these drivers (compile time of the njit copies)
+    try:
+        with warnings.catch_warnings():
+            warnings.simplefilter("ignore")
+            if "base" not in _FDX_BASE:
+                import quimb.tensor.decomp as D0
+                _FDX_BASE["base"] = _fdx_failed(D0, methods)
+            spec = importlib.util.spec_from_file_location("quimb.tensor._decomp_mutant", dst)
+            mod = importlib.util.module_from_spec(spec)
+            mod.__package__ = "quimb.tensor"
+            spec.loader.exec_module(mod)
+            got = _fdx_failed(mod, methods)
+    finally:
+        os.remove(dst)
+    new_fail = sorted(got - _FDX_BASE["base"])
+    if new_fail:
+        return "failed", ", ".join(x.split("::", 1)[1] for x in new_fail[:3]) + f" (+{max(0, len(new_fail) - 3)} more)"
+    return "discharged", ""
+
+
 def run_mutant(tmp, relpath, suffix, old, new):
     from vf import pyvc
+    if suffix == FDX:
+        return run_fdx_mutant(tmp, relpath, old, new)
     explicit = "@" in suffix
     suffix, _, sel = suffix.partition("@")
     src = open(os.path.join("/repo", relpath)).read()
